@@ -137,6 +137,8 @@ def hermetic_execute(engine, prop, plan):
     from simkit import launch
 
     launch.purge_batchie()
+    launch.install_sim_threads()  # thread pools are the simulator's: tasks run one at a time in a seeded order
+    launch.SIM_THREADS["rng"].seed(0)
     if hasattr(engine, "reset_state"):
         engine.reset_state()
     try:
@@ -325,6 +327,7 @@ def do_replay(path, as_json=False):
 def run_check(prop, tier, runs=None, jobs=None, verif_seed=None, write_evidence=True,
               want_digests=False, quiet=False):
     t0 = time.time()
+    kernel.sweep_stale_scratch()
     engine = load_engine(prop)
     spec = engine.SPEC[prop]
     check_repo_import()
